@@ -5,6 +5,7 @@ inventory and T2's differential runs; see DESIGN.md.)
 -/
 import BytesVerif.Lemmas.Core.Sound
 import BytesVerif.Lemmas.Core.PropC16
+import BytesVerif.Props.C01
 namespace BytesVerif.Core
 
 /-- Build profile: under the invariant no unchecked `+`/`-` of the model ever leaves the `usize`
@@ -67,5 +68,57 @@ theorem erase_WFx (s : St) (h : WFx s) : WFx (erase s) := by
 theorem abs_erase (s : St) : abs (erase s) = abs s := by
   rw [erase_eq]
   exact P16.abs_erase' s
+
+/-! ### whole scripts -/
+
+/-- Any script, from any well-formed state: the run (final state and every outcome, incl. which calls
+panic) is the same under both build profiles. -/
+theorem cfg_irrelevant_run (cfg₁ cfg₂ : Cfg) (e : Env) (ops : List Op) (hops : ∀ op ∈ ops, OpOK op)
+    (s : St) (h : WFx s) : run cfg₁ e ops s = run cfg₂ e ops s := by
+  induction ops generalizing s with
+  | nil => rfl
+  | cons op ops ih =>
+    have ho := hops op List.mem_cons_self
+    have hops' : ∀ op' ∈ ops, OpOK op' := fun o h' => hops o (List.mem_cons_of_mem _ h')
+    have heq := cfg_irrelevant cfg₁ cfg₂ e op ho s h
+    have hs := step_sound cfg₁ e op s h ho
+    unfold StepOKx at hs
+    rcases R.sat_cases hs with ⟨v, s', hst, hw, _⟩ | ⟨s', hst, hw, _⟩
+    · simp only [run, ← heq, hst, ih hops' s' hw]
+    · simp only [run, ← heq, hst, ih hops' s' hw]
+
+/-- Any script, from any well-formed state: running under any allocator parity and forgetting parity at
+the end is the same as running the parity-erased state under the all-even allocator — same outcomes,
+same final state up to parity. -/
+theorem parity_irrelevant_run (cfg : Cfg) (e : Env) (ops : List Op) (hops : ∀ op ∈ ops, OpOK op)
+    (s : St) (h : WFx s) :
+    (run cfg e ops s).map (fun r => (erase r.1, r.2)) = run cfg evenEnv ops (erase s) := by
+  induction ops generalizing s with
+  | nil => rfl
+  | cons op ops ih =>
+    have ho := hops op List.mem_cons_self
+    have hops' : ∀ op' ∈ ops, OpOK op' := fun o h' => hops o (List.mem_cons_of_mem _ h')
+    have hp := parity_irrelevant cfg e op ho s h
+    have hs := step_sound cfg e op s h ho
+    unfold StepOKx at hs
+    rcases R.sat_cases hs with ⟨v, s', hst, hw, _⟩ | ⟨s', hst, hw, _⟩
+    · rw [hst] at hp
+      simp only [run, hst, ← hp, eraseR, ← ih hops' s' hw, Option.map_map]
+      rfl
+    · rw [hst] at hp
+      simp only [run, hst, ← hp, eraseR, ← ih hops' s' hw, Option.map_map]
+      rfl
+
+/-- … so the outcomes and what every handle reads at the end are the same for every allocator parity. -/
+theorem parity_observations (cfg : Cfg) (e₁ e₂ : Env) (ops : List Op) (hops : ∀ op ∈ ops, OpOK op)
+    (s : St) (h : WFx s) :
+    (run cfg e₁ ops s).map (fun r => (abs r.1, r.2)) = (run cfg e₂ ops s).map (fun r => (abs r.1, r.2)) := by
+  have h1 := parity_irrelevant_run cfg e₁ ops hops s h
+  have h2 := parity_irrelevant_run cfg e₂ ops hops s h
+  have := h1.trans h2.symm
+  have key : ∀ (x : Option (St × List Outcome)),
+      x.map (fun r => (abs r.1, r.2)) = (x.map (fun r => (erase r.1, r.2))).map (fun r => (abs r.1, r.2)) := by
+    intro x; cases x <;> simp [abs_erase]
+  rw [key (run cfg e₁ ops s), key (run cfg e₂ ops s), this]
 
 end BytesVerif.Core
